@@ -548,10 +548,10 @@ class DnsRecordTxtValueSpfDirectiveBase(ParsableBase, Serializable):
             composer.compose_numeric(ip_network.prefixlen)
 
     @classmethod
-    def _parse_ip_cidr_length(cls, parser):
+    def _parse_ip_cidr_length(cls, parser, max_separator_count=1):
         has_separator = True
         try:
-            parser.parse_separator('/', min_length=1, max_length=1)
+            parser.parse_separator('/', min_length=1, max_length=max_separator_count)
         except InvalidValue:
             has_separator = False
 
@@ -720,7 +720,7 @@ class DnsRecordTxtValueSpfDirectiveDomainCidr(DnsRecordTxtValueSpfDirectiveBase)
         qualifier = parser.get('qualifier', None)
         domain = cls._parse_domain(parser, True, extra_separators='/')
         ipv4_cidr_length = cls._parse_ip_cidr_length(parser)
-        ipv6_cidr_length = cls._parse_ip_cidr_length(parser)
+        ipv6_cidr_length = cls._parse_ip_cidr_length(parser, max_separator_count=2)
 
         return cls(
             qualifier=qualifier,
@@ -734,6 +734,8 @@ class DnsRecordTxtValueSpfDirectiveDomainCidr(DnsRecordTxtValueSpfDirectiveBase)
 
         self._compose_domain(composer, self.domain)
         self._compose_ip_cidr_length(composer, self.ipv4_cidr_length)
+        if self.ipv4_cidr_length is None and self.ipv6_cidr_length is not None:
+            composer.compose_separator('/')
         self._compose_ip_cidr_length(composer, self.ipv6_cidr_length)
 
         return composer.composed
